@@ -29,3 +29,16 @@ Print Assumptions C03_vertex_bound.
    (C08 / C02: all answers are marginals of one explicit joint), so its loss cannot be below the minimum over such tables;
    the check verifies that the loss computed from the marginal answers equals the loss of that table.
    PARTIAL (observed per run): that MD / RDA / IG reach a small gap with the iteration count used, and loss <= loss(uniform start). *)
+
+(* `never a worse fit than the uniform start`, mirror descent: a trial accepted by the sufficient-decrease test of inference.py:238
+   does not increase the loss.  On the explicit joint, P and Q are the positive tables of the parameters omega and
+   theta = omega - alpha*dL (Q is P tilted by exp(-alpha g), g the gradient pulled back to the cells, renormalised to the same
+   total); then alpha <g, P - Q> = KL(P||Q) + KL(Q||P) >= 0, so the accepted trial has loss L' <= L, for ANY loss function.
+   PARTIAL: the 25-halving fallback (the last trial is kept unconditionally) and RDA / IG are observed per run, not covered. *)
+Require Import Coq.Reals.Reals PGM.Proofs.GibbsP PGM.Proofs.DpP.
+Theorem C03_accepted_step_never_increases_loss (alpha c : R) (P g : list R) (L L' : R) :
+  (0 < alpha)%R -> (0 < c)%R -> length P = length g -> GibbsP.allpos P ->
+  GibbsP.sumR (GibbsP.tilt alpha c P g) = GibbsP.sumR P ->
+  (L - L' >= alpha / 2 * (GibbsP.dot g P - GibbsP.dot g (GibbsP.tilt alpha c P g)))%R -> (L' <= L)%R.
+Proof. exact (accepted_step_never_increases alpha c P g L L'). Qed.
+Print Assumptions C03_accepted_step_never_increases_loss.
